@@ -273,6 +273,12 @@ pub broadcast group group_vec_ext { axiom_vec_of, axiom_vec_u8_ext, axiom_vec_cb
 pub open spec fn cbor_tagged(tag: u64, item: CBOR) -> CBOR {
     CBOR(RefCounted::new(CBORCase::Tagged(Tag { value: tag }, item)))
 }
+impl CBOR {
+    pub open spec fn s_items(self) -> Seq<CBOR> { match *self.0 { CBORCase::Array(v) => v@, _ => Seq::empty() } }
+    pub open spec fn s_tag(self) -> u64 { match *self.0 { CBORCase::Tagged(t, i) => t.value, _ => 0 } }
+    pub open spec fn s_inner(self) -> CBOR { match *self.0 { CBORCase::Tagged(t, i) => i, _ => self } }
+    pub open spec fn s_entries(self) -> Seq<(CBOR, CBOR)> { match *self.0 { CBORCase::Map(m) => m.entries@, _ => Seq::empty() } }
+}
 pub open spec fn cbor_unsigned(v: u64) -> CBOR { CBOR(RefCounted::new(CBORCase::Unsigned(v))) }
 impl CBOR {
     pub fn as_case(&self) -> (r: &CBORCase) ensures *r == *self.0 { &self.0 }
@@ -518,6 +524,14 @@ pub trait CBORTaggedDecodable: CBORTagged + Sized {
 // EncryptedMessage / Compressed codecs (bc-components): [A-enc-codec], [A-comp-codec]
 impl EncryptedMessage { pub uninterp spec fn em_untagged(&self) -> CBOR; }
 impl Compressed { pub uninterp spec fn cz_untagged(&self) -> CBOR; }
+// [A-enc-codec-inj], [A-comp-codec-inj]: the untagged CBOR determines the message (decoding is a function)
+pub broadcast axiom fn axiom_em_untagged_inj(a: EncryptedMessage, b: EncryptedMessage)
+    requires #[trigger] a.em_untagged() == #[trigger] b.em_untagged()
+    ensures a == b;
+pub broadcast axiom fn axiom_cz_untagged_inj(a: Compressed, b: Compressed)
+    requires #[trigger] a.cz_untagged() == #[trigger] b.cz_untagged()
+    ensures a == b;
+pub broadcast group group_codec_inj { axiom_em_untagged_inj, axiom_cz_untagged_inj }
 impl CBORTagged for EncryptedMessage {
     open spec fn tag_spec() -> u64 { tags::TAG_ENCRYPTED }
     #[verifier::external_body]
